@@ -4,7 +4,7 @@ SHELL := /bin/bash
 COQ_TIMEOUT ?= 1800
 J ?= 12
 
-.PHONY: setup all coq extract driver clean prectable
+.PHONY: setup all coq extract driver clean prectable coqchk static
 
 setup: all
 all: coq driver
@@ -30,6 +30,14 @@ driver: extract
 	cp coq/extract/driver.ml build/extract/driver.ml
 	cd build/extract && timeout 600 ocamlfind ocamlopt -w -a -O2 -package str model.mli model.ml driver.ml -o ../model_driver 2>/dev/null || \
 	 (cd build/extract && timeout 600 ocamlfind ocamlopt -w -a -package str model.mli model.ml driver.ml -o ../model_driver)
+
+# independent re-check of every property file and everything it depends on, with the axioms they rely on
+coqchk: coq
+	cd coq && timeout 3000 coqchk -silent -o -Q theories RV $(foreach n,01 02 03 04 05 06 07 08 09 10 11 12 13 14 15 16 17 18 19 20,RV.Props.C$(n)) 2>&1 | tee COQCHK.txt | tail -15
+
+# no Admitted/admit/Axiom/Parameter/Conjecture/kernel switches; no Variable/Hypothesis/Context outside a Section
+static:
+	python3 tools/static_check.py
 
 clean:
 	-cd coq && $(MAKE) -f Makefile.coq clean
